@@ -1,4 +1,5 @@
 """C06 — SSI index. Model: lean/EaselModel/Ssi/*, theorems: Props/C06.lean, harness: h_ssi.c"""
+import os
 from vlib.engine import Prop, Failure
 
 HEXLIMIT = 1500
@@ -381,10 +382,17 @@ class C06(Prop):
         c.append({"name": "dup-alias-external", "sticky": 1, "ops": [
             "new", "addfile name=%s fmt=1" % hx(b"f"), "addkey k=%s fh=0 r=1 d=2 L=3" % hx(b"k1"), "external", "addkey k=%s fh=0 r=4 d=5 L=6" % hx(b"k2"),
             "addalias a=%s k=%s" % (hx(b"al"), hx(b"k1")), "addalias a=%s k=%s" % (hx(b"al"), hx(b"k2")), "write", "open"]})
+        # esl_newssi_Open's overwrite protection, Close without Write (files on disk afterwards)
+        c.append({"name": "open-close-files", "sticky": 0, "ops": [
+            "new ow=0 pre=0", "addfile name=%s fmt=1" % hx(b"f"), "addkey k=%s fh=0 r=1 d=2 L=3" % hx(b"k"), "closens",
+            "new ow=0 pre=1", "new ow=0 pre=2", "new ow=0 pre=3", "new ow=1 pre=1", "addfile name=%s fmt=1" % hx(b"f"), "external",
+            "addkey k=%s fh=0 r=1 d=2 L=3" % hx(b"k"), "closens",
+            "new ow=1 pre=2", "addfile name=%s fmt=1" % hx(b"f"), "addkey k=%s fh=0 r=1 d=2 L=3" % hx(b"k"), "write", "open", "find k=%s" % hx(b"k"), "close",
+            "new ow=1 pre=3", "addfile name=%s fmt=1" % hx(b"f"), "external", "addkey k=%s fh=0 r=1 d=2 L=3" % hx(b"k"), "addkey k=%s fh=0 r=1 d=2 L=3" % hx(b"k"), "write", "open"]})
         # argument checks of the Add* calls: rejected calls leave the index unchanged
         c.append({"name": "rejected-calls", "sticky": 1, "ops": [
             "new", "addfile name=%s fmt=2" % hx(b"p/q"), "setsubseq fh=1 bpl=61 rpl=60", "setsubseq fh=0 bpl=0 rpl=60", "setsubseq fh=0 bpl=61 rpl=0",
-            "setsubseq fh=0 bpl=61 rpl=60", "addkey k=%s fh=32767 r=1 d=2 L=3" % hx(b"bad"), "addkey k=%s fh=65535 r=1 d=2 L=3" % hx(b"bad2"),
+            "setsubseq fh=0 bpl=1 rpl=1", "setsubseq fh=0 bpl=4294967295 rpl=1", "setsubseq fh=0 bpl=61 rpl=60", "addkey k=%s fh=32767 r=1 d=2 L=3" % hx(b"bad"), "addkey k=%s fh=65535 r=1 d=2 L=3" % hx(b"bad2"),
             "addkey k=%s fh=0 r=10 d=20 L=130" % hx(b"good"), "external", "addkey k=%s fh=40000 r=1 d=2 L=3" % hx(b"bad3"),
             "addkey k=%s fh=0 r=11 d=0 L=5" % hx(b"good2"), "addalias a=%s k=%s" % (hx(b"al"), hx(b"good")), "write", "open",
             "find k=%s" % hx(b"bad"), "find k=%s" % hx(b"bad2"), "find k=%s" % hx(b"bad3"), "find k=%s" % hx(b"good"), "find k=%s" % hx(b"good2"), "find k=%s" % hx(b"al"),
@@ -402,6 +410,8 @@ class C06(Prop):
         quick = ctx.tier == "quick"
         out = []
         n = 900 if quick else 6000
+        if os.environ.get("C06_CASES"):      # mutation sweeps use a smaller sample
+            n = int(os.environ["C06_CASES"])
         self.stats = {"modes": {}, "nkeys": [], "nalias": [], "nfiles": [], "ops": 0}
         for c in range(n):
             r = rng.random()
@@ -457,6 +467,7 @@ class C06(Prop):
         files, subseq, pk, al = [], {}, [], []
         files_full = []
         ext = False
+        pretmp = False
         cur = None           # what the index on disk should contain: dict or None
         isopen = None
         hashes = []          # (signature of contents, n, h)
@@ -472,7 +483,22 @@ class C06(Prop):
             if name == "new":
                 files, subseq, pk, al, ext = [], {}, [], [], False
                 files_full = []
+                cur = None
+                pre = int(a.get("pre", "0")); ow = int(a.get("ow", "1"))
+                pretmp = pre in (2, 3)
+                if ow == 0 and pre != 0:
+                    exp = "eoverwrite file=%d n=%d tmp=%d" % (1 if pre == 1 else 0, 3 if pre == 1 else 0, 1 if pretmp else 0)
+                    if l != exp: return fail("esl_newssi_Open(allow_overwrite=FALSE) over existing files answered %r, expected %r" % (l, exp))
+                    continue
                 if st != "ok": return fail("esl_newssi_Open returned %s" % st)
+                if "ow" in a and l != "ok file=1 n=0 tmp=%d" % (1 if pretmp else 0):
+                    return fail("esl_newssi_Open answered %r" % l)
+            elif name == "closens":
+                f = dict(x.split("=", 1) for x in l.split()[1:] if "=" in x)
+                if st != "ok" or f.get("file") != "1" or f.get("n") != "0":
+                    return fail("Close without Write: %r (the created index file should still be there, empty)" % l)
+                if f.get("tmp") != "0" and not pretmp:
+                    return fail("Close without Write left tmp files of the external sort behind")
             elif name == "addfile":
                 nm = unhx(a["name"])
                 if l != "ok fh=%d" % len(files): return fail("AddFile #%d answered %r" % (len(files), l))
@@ -501,7 +527,7 @@ class C06(Prop):
                 pks = [k[0] for k in pk]; als = [x[0] for x in al]
                 dup = len(set(pks)) != len(pks) or len(set(als)) != len(als)
                 cross = bool(set(pks) & set(als))
-                if f.get("tmp") != "0":
+                if f.get("tmp") != "0" and not pretmp:
                     return fail("tmp files of the external sort left behind after Write+Close")
                 if not files:
                     cur = None          # an index without files is outside the property (1..40 files)
